@@ -688,4 +688,33 @@ def C07.Frustum.setFovExc {α : Type} [Sub α] [Mul α] [Div α] [Neg α] [Decid
     else
       .error Exc.domainError
 
+/-- extracted from the C++ template at T = Sym; 2 path(s) -/
+def C07.Frustum.setFovFromOrtho {α : Type} [Sub α] [Mul α] [Div α] [Neg α] [DecidableEq α] [OfNat α 0] [OfNat α 2] (tan : α → α) (n : α) (f : α) (fovx : α) (fovy : α) (aspect : α) : (α × α × α × α × α × α × Bool) :=
+  let t884 := (n * (tan (fovy / (2 : α))))
+  let t885 := (-t884)
+  let t888 := (((t884 - t885) * aspect) / (2 : α))
+  let t892 := (n * (tan (fovx / (2 : α))))
+  let t893 := (-t892)
+  let t896 := (((t892 - t893) / aspect) / (2 : α))
+  if fovx = (0 : α) then
+    (n, f, (-t888), t888, t884, t885, false)
+  else
+    (n, f, t893, t892, t896, (-t896), false)
+
+/-- extracted from the C++ template at T = Sym; 3 path(s) -/
+def C07.Frustum.setFovExcFromOrtho {α : Type} [Sub α] [Mul α] [Div α] [Neg α] [DecidableEq α] [OfNat α 0] [OfNat α 2] (tan : α → α) (n : α) (f : α) (fovx : α) (fovy : α) (aspect : α) : Except Exc (α × α × α × α × α × α × Bool) :=
+  let t884 := (n * (tan (fovy / (2 : α))))
+  let t885 := (-t884)
+  let t888 := (((t884 - t885) * aspect) / (2 : α))
+  let t892 := (n * (tan (fovx / (2 : α))))
+  let t893 := (-t892)
+  let t896 := (((t892 - t893) / aspect) / (2 : α))
+  if fovx = (0 : α) then
+    .ok ((n, f, (-t888), t888, t884, t885, false))
+  else
+    if fovy = (0 : α) then
+      .ok ((n, f, t893, t892, t896, (-t896), false))
+    else
+      .error Exc.domainError
+
 end ImathVerif.Gen
